@@ -752,6 +752,11 @@ func (r *Run) binop(g *G, op token.Token, t types.Type, a, b Value, tb types.Typ
 		}
 	case *SymStr:
 		if op == token.ADD {
+			if _, ok := x.n.(int64); !ok {
+				// case-split the (small) symbolic length of the left operand
+				n, _ := r.concreteIndex(g, x.n, r.curPosPrev(g))
+				x = &SymStr{b: x.b[:n], n: n}
+			}
 			switch y := b.(type) {
 			case string:
 				return concatStr(x, strToSym(y)), true
